@@ -921,6 +921,10 @@ theorem C01_read_file_partial {F} (ops : FloatOps F) (lex : LexCfg) (cfg : RWCfg
 /-- in the source as it is now the three repairs are present -/
 theorem C01_source_skip_instance_skips_comments : Generated.rwCfg.skipInstanceSkipsComments = true := by decide
 
+/-- … `ReadComment` reads comments of any length (repair C01-9): the model's `readComment`, which has no length bound, is the
+    code's reader, and "any comment" in `Seps` needs no bound -/
+theorem C01_source_comments_of_any_length : Generated.rwCfg.commentsOfAnyLength = true := by decide
+
 /-- … and the elements of aggregates of NUMBER are read as NUMBERs (repair C01-6) -/
 theorem C01_source_number_elements_read_as_numbers : Generated.rwCfg.numberElemReadsNumber = true := by decide
 
